@@ -27,6 +27,13 @@ func (st *State) stdlibSpecial(fn *types.Func, recv *Val, args []Val, call *ast.
 	if strings.HasPrefix(name, "sync/atomic.") && fc.isRG() && fc.inlineDepth == 0 && !st.rgInAtomic {
 		// rely-guarantee mode: interference first, then the atomic step, then its ghost updates and the step check
 		st.rgStabilize(call.Pos())
+		if ord, has := fc.callOrd[call]; has {
+			// assertions about the state after interference, right before the step (helps to instantiate the rely)
+			pre := st.rgPre
+			st.rgPre = nil
+			st.runAnchor(fmt.Sprintf("before-call%d", ord), call.Pos())
+			st.rgPre = pre
+		}
 		st.rgInAtomic = true
 		res, ok := st.stdlibSpecial(fn, recv, args, call)
 		st.rgInAtomic = false
